@@ -39,7 +39,7 @@ int tl_stopwatch_Display(ESL_STOPWATCH* w){ (void)w; return 0; }
 #define KV_CAP 4
 #endif
 #define KV_MAXL 40
-#define KV_LINEW 16
+#define KV_LINEW 24
 
 static char rows[KV_N][KV_W + 1];
 static char text[KV_MAXL][KV_LINEW + 1];
@@ -57,7 +57,7 @@ static void put_block_line(int r, int start)
         int j, k = 0;
         text[nlines][k++] = (char)('a' + r);
 #ifdef KV_LONGNAME
-        /* C05: a row name longer than the name buffer (MSA_NAME_LEN shrunk to KV_NAMECAP, rule R3): KV_LONGNAME characters */
+        /* a row name of KV_LONGNAME characters, possibly longer than the name buffer (MSA_NAME_LEN shrunk to KV_NAMECAP, rule R3) */
         for(j = 1; j < KV_LONGNAME; j++){ text[nlines][k++] = 'x'; }
 #endif
         text[nlines][k++] = ' '; text[nlines][k++] = ' ';
@@ -96,6 +96,12 @@ void h_c06_readers(void)
 #if KV_HOSTILE == 2
                 char l[16] = " Len: 3 Name: a";      /* keywords in the other order: the name ends the line */
                 l[14] = (char)('a' + i);
+#elif defined(KV_LONGNAME)
+                char l[KV_LINEW + 1] = " Name: a";
+                int k = 8, q;
+                for(q = 1; q < KV_LONGNAME; q++){ l[k++] = 'x'; }
+                l[k++] = ' '; l[k++] = 'L'; l[k++] = 'e'; l[k++] = 'n'; l[k++] = ':'; l[k++] = ' '; l[k++] = '3'; l[k] = 0;
+                l[7] = (char)('a' + i);
 #else
                 char l[16] = " Name: a Len: 3";
                 l[7] = (char)('a' + i);
@@ -135,7 +141,7 @@ void h_c06_readers(void)
 #else
         rc = read_msf(b, &m);
 #endif
-#if KV_HOSTILE == 1 || defined(KV_LONGNAME)
+#if KV_HOSTILE == 1
         /* C05: malformed text is either rejected or read without touching anything outside the reader's objects
            (the pointer / bounds / leak obligations of the query); nothing else is promised */
         KV_CHECK(rc == OK || rc == FAIL, "malformed text: the reader returns a status");
@@ -149,7 +155,18 @@ void h_c06_readers(void)
                 for(i = 0; i < KV_N; i++){
                         struct msa_seq* s = m->sequences[i];
                         int p = 0, pend = 0;
+#ifdef KV_LONGNAME
+                        /* a name longer than the name buffer may be cut, but it is still only the NAME: the residues of the row
+                           are the letters that follow it (C04 / C06) */
+                        KV_CHECK(s->name[0] == (char)('a' + i), "same names (possibly cut to the name buffer), same order");
+                        {
+                                int k, z = 0;
+                                for(k = 0; k < KV_NAMECAP; k++){ if(s->name[k] == 0){ z = 1; } }
+                                KV_CHECK(z, "name is NUL-terminated inside its buffer");
+                        }
+#else
                         KV_CHECK(s->name[0] == (char)('a' + i) && s->name[1] == 0, "same names, same order");
+#endif
                         for(j = 0; j < KV_W; j++){
                                 if(rows[i][j] == '-'){ pend++; }
                                 else{
